@@ -15,6 +15,7 @@ RULE = (
     "remaining non-increasing, others non-decreasing; final: completed+failed+warning <= N and the status rule; non-trivial = "
     "at least one sub-operation was attempted and something other than plain success happened (failure, warning, invalid "
     "yield, count mismatch); distinct = distinct (operation, announced count, yield kinds, store outcomes)"
+    " The storage SCP may also answer a sub-operation with a status outside the Storage service's table or with a Cancel / Pending code."
 )
 
 
